@@ -254,6 +254,12 @@ theorem built_flags_agree (w : World) (name : String) (id : Nat) (items : List I
   · simp [buildProgram, finish, hb]
   · simp [buildProgram, finish, hw]
 
+/-- **built_inherits_in_world** (stated in LemmasBuild2; clause `inherit.prog < p` of `wfFind` / `wfSlots`, for all
+    inputs): every inherit entry of a built program names a program of the world it was compiled against. -/
+example (w : World) (name : String) (id : Nat) (items : List Item) :
+    ∀ ih ∈ (buildProgram w name id items).inherit, ih.prog < w.progs.length :=
+  built_inherits_in_world w name id items
+
 /-- the modifier bits of a flags word, as the specification's `Mods` -/
 def modsOf (fl : Nat) : Spec.Mods :=
   { static := hasBit fl nameStatic, priv := hasBit fl namePrivate, prot := hasBit fl nameProtected,
